@@ -255,10 +255,17 @@ func (c c17C_bw6_761) pedBatch(a kvs) string {
 // ------------------------------------------------------------------------------------------- SHPLONK / fflonk
 
 // same binding order as shplonk.deriveChallenge (unexported there)
-func (c17C_bw6_761) shDerive(name string, points [][]fr.Element, digests []kzg.Digest, t *fiatshamir.Transcript) fr.Element {
+func (c17C_bw6_761) shDerive(name string, points, claimed [][]fr.Element, digests []kzg.Digest, t *fiatshamir.Transcript) fr.Element {
 	for i := range points {
 		for j := range points[i] {
 			if err := t.Bind(name, points[i][j].Marshal()); err != nil {
+				panic(err)
+			}
+		}
+	}
+	for i := range claimed { // bound since the fix 420bc96
+		for j := range claimed[i] {
+			if err := t.Bind(name, claimed[i][j].Marshal()); err != nil {
 				panic(err)
 			}
 		}
@@ -277,11 +284,59 @@ func (c17C_bw6_761) shDerive(name string, points [][]fr.Element, digests []kzg.D
 	return ch
 }
 
-func (c c17C_bw6_761) shChallenges(points [][]fr.Element, digests []kzg.Digest, W curve.G1Affine) (fr.Element, fr.Element) {
+func (c c17C_bw6_761) shChallenges(points, claimed [][]fr.Element, digests []kzg.Digest, W curve.G1Affine) (fr.Element, fr.Element) {
 	fs := fiatshamir.NewTranscript(sha256.New(), "gamma", "z")
-	gamma := c.shDerive("gamma", points, digests, fs)
-	z := c.shDerive("z", nil, []kzg.Digest{W}, fs)
+	gamma := c.shDerive("gamma", points, claimed, digests, fs)
+	z := c.shDerive("z", nil, nil, []kzg.Digest{W}, fs)
 	return gamma, z
+}
+
+// W' = [ (Σ γ^k Z_{T∖S_k}(z)(f_k(τ) − r_k(z)) − Z_T(z)·w) / (τ − z) ] through the trapdoor; w = discrete log of W
+func (c c17C_bw6_761) shWPrimeTrapdoor(x *c17Sh_bw6_761, tf, w, gamma, z fr.Element) (curve.G1Affine, bool) {
+	var acc, g, t fr.Element
+	g.SetOne()
+	for k := range x.points {
+		fk := c.evalPoly(x.polys[k], tf)
+		rk := c.interpAt(x.points[k], x.proof.ClaimedValues[k], z)
+		fk.Sub(&fk, &rk)
+		zk := c.ztAt(x.points, k, -1, -1, z)
+		fk.Mul(&fk, &zk).Mul(&fk, &g)
+		acc.Add(&acc, &fk)
+		g.Mul(&g, &gamma)
+	}
+	ztz := c.ztAt(x.points, -1, -1, -1, z)
+	ztz.Mul(&ztz, &w)
+	acc.Sub(&acc, &ztz)
+	t.Sub(&tf, &z)
+	if t.IsZero() {
+		return curve.G1Affine{}, false
+	}
+	t.Inverse(&t)
+	acc.Mul(&acc, &t)
+	var wb big.Int
+	acc.BigInt(&wb)
+	return c.g1(&wb), true
+}
+
+// discrete log of the prover's W for the claimed values currently in x.proof: Σ γ^k Z_{T∖S_k}(τ)(f_k(τ) − r_k(τ)) / Z_T(τ)
+func (c c17C_bw6_761) shWScalar(x *c17Sh_bw6_761, tf, gamma fr.Element) (fr.Element, bool) {
+	var acc, g, w fr.Element
+	g.SetOne()
+	for k := range x.points {
+		fk := c.evalPoly(x.polys[k], tf)
+		rk := c.interpAt(x.points[k], x.proof.ClaimedValues[k], tf)
+		fk.Sub(&fk, &rk)
+		zk := c.ztAt(x.points, k, -1, -1, tf)
+		fk.Mul(&fk, &zk).Mul(&fk, &g)
+		acc.Add(&acc, &fk)
+		g.Mul(&g, &gamma)
+	}
+	zt := c.ztAt(x.points, -1, -1, -1, tf)
+	if zt.IsZero() {
+		return w, false
+	}
+	w.Inverse(&zt).Mul(&w, &acc)
+	return w, true
 }
 
 type c17Sh_bw6_761 struct {
@@ -289,6 +344,58 @@ type c17Sh_bw6_761 struct {
 	digests []kzg.Digest
 	points  [][]fr.Element
 	vk      kzg.VerifyingKey
+	polys   [][]fr.Element // the committed polynomials (read by "overlap")
+	gp      fr.Element     // the honest prover's γ (read by "overlap")
+	derive  bool           // gen mode: "overlap" derives the verifier's z itself
+}
+
+func (c17C_bw6_761) evalPoly(p []fr.Element, t fr.Element) fr.Element {
+	var r fr.Element
+	for i := len(p) - 1; i >= 0; i-- {
+		r.Mul(&r, &t).Add(&r, &p[i])
+	}
+	return r
+}
+
+// value at t of the interpolation polynomial of (pts, vals)
+func (c17C_bw6_761) interpAt(pts, vals []fr.Element, t fr.Element) fr.Element {
+	var r fr.Element
+	for j := range pts {
+		var l, u fr.Element
+		l.SetOne()
+		for k := range pts {
+			if k == j {
+				continue
+			}
+			u.Sub(&t, &pts[k])
+			l.Mul(&l, &u)
+			u.Sub(&pts[j], &pts[k])
+			u.Inverse(&u)
+			l.Mul(&l, &u)
+		}
+		l.Mul(&l, &vals[j])
+		r.Add(&r, &l)
+	}
+	return r
+}
+
+// ∏ (t − s) over all s ∈ S_k, k ≠ skip (skip = −1: Z_T(t)); (sb, sj) ≥ 0: that one factor is left out as well
+func (c17C_bw6_761) ztAt(points [][]fr.Element, skip, sb, sj int, t fr.Element) fr.Element {
+	var r, u fr.Element
+	r.SetOne()
+	for k := range points {
+		if k == skip {
+			continue
+		}
+		for l := range points[k] {
+			if k == sb && l == sj {
+				continue
+			}
+			u.Sub(&t, &points[k][l])
+			r.Mul(&r, &u)
+		}
+	}
+	return r
 }
 
 // mutations of a shplonk instance; other may be nil. gv, zv: the verifier's challenges (only read by "forge")
@@ -357,40 +464,73 @@ func (c c17C_bw6_761) shMutate(a kvs, x *c17Sh_bw6_761, other *c17Sh_bw6_761, ta
 		x.vk.G2[1] = c.g2(m)
 		x.vk.Lines[1] = curve.PrecomputeLines(x.vk.G2[1])
 	case "forge":
-		// claimed[i][j] += m ; W' -= [γⁱ·Z_{T∖Sᵢ}(z)·m·Lⱼ(z)/(τ − z)]G1
-		var zi, lj, t, d fr.Element
-		zi.SetOne()
-		for k := range x.points {
-			if k == i {
-				continue
-			}
-			for _, p := range x.points[k] {
-				t.Sub(&zv, &p)
-				zi.Mul(&zi, &t)
-			}
+		// TRAPDOOR forgery: claimed[i][j] += m, W kept, W' recomputed through τ for the verifier's challenges (which depend on
+		// the claimed values since the fix 420bc96): the verification relation holds although the statement is false
+		if len(x.polys) != len(x.points) {
+			return false
 		}
-		lj.SetOne()
-		for k, p := range x.points[i] {
-			if k == j {
-				continue
-			}
-			t.Sub(&zv, &p)
-			lj.Mul(&lj, &t)
-			t.Sub(&x.points[i][j], &p)
-			t.Inverse(&t)
-			lj.Mul(&lj, &t)
-		}
-		d.Exp(gv, big.NewInt(int64(i)))
-		d.Mul(&d, &zi).Mul(&d, &mF).Mul(&d, &lj)
 		tf := c.fr(tau)
-		t.Sub(&tf, &zv)
-		t.Inverse(&t)
-		d.Mul(&d, &t)
-		var db big.Int
-		d.BigInt(&db)
-		dG := c.g1(&db)
+		w, ok := c.shWScalar(x, tf, x.gp) // honest W (honest values, prover's γ)
+		if !ok {
+			return false
+		}
 		x.proof.ClaimedValues[i][j].Add(&x.proof.ClaimedValues[i][j], &mF)
-		x.proof.WPrime.Sub(&x.proof.WPrime, &dG)
+		gamma, z := gv, zv
+		if x.derive {
+			gamma, z = c.shChallenges(x.points, x.proof.ClaimedValues, x.digests, x.proof.W)
+		}
+		wp, ok := c.shWPrimeTrapdoor(x, tf, w, gamma, z)
+		if !ok {
+			return false
+		}
+		x.proof.WPrime = wp
+	case "overlap":
+		// NO-TRAPDOOR forgery for a point x = points[i][j] that also belongs to another set S_b (T is a multiset: Z_T has a
+		// double root at x): claimed[i][j] += m, claimed[b][j2] += d_b with γ^i·Q_i(x)·m + γ^b·Q_b(x)·d_b = 0, so that
+		// Σ γ^k Z_{T∖S_k}(f_k − r'_k) is still divisible by Z_T and W, W' are honest commitments of exact quotients (they are
+		// computed here through τ only for convenience; the Lean model re-checks that the division is exact). The forger
+		// needs γ BEFORE choosing the values: it uses the honest prover's γ (x.gp).
+		b, j2 := -1, -1
+		for k := range x.points {
+			for l := range x.points[k] {
+				if k != i && b < 0 && x.points[k][l].Equal(&x.points[i][j]) {
+					b, j2 = k, l
+				}
+			}
+		}
+		if b < 0 || len(x.polys) != len(x.points) {
+			return false
+		}
+		xx := x.points[i][j]
+		qa, qb := c.ztAt(x.points, i, b, j2, xx), c.ztAt(x.points, b, i, j, xx)
+		if qa.IsZero() || qb.IsZero() {
+			return false
+		}
+		var ga, gb, db, t fr.Element
+		ga.Exp(x.gp, big.NewInt(int64(i)))
+		gb.Exp(x.gp, big.NewInt(int64(b)))
+		db.Mul(&ga, &qa).Mul(&db, &mF)
+		t.Mul(&gb, &qb).Inverse(&t)
+		db.Mul(&db, &t).Neg(&db)
+		x.proof.ClaimedValues[i][j].Add(&x.proof.ClaimedValues[i][j], &mF)
+		x.proof.ClaimedValues[b][j2].Add(&x.proof.ClaimedValues[b][j2], &db)
+		tf := c.fr(tau)
+		w, ok := c.shWScalar(x, tf, x.gp)
+		if !ok {
+			return false
+		}
+		var wb big.Int
+		w.BigInt(&wb)
+		x.proof.W = c.g1(&wb)
+		z := zv
+		if x.derive {
+			_, z = c.shChallenges(x.points, x.proof.ClaimedValues, x.digests, x.proof.W)
+		}
+		wp, ok := c.shWPrimeTrapdoor(x, tf, w, x.gp, z) // the forger's γ, the verifier's z
+		if !ok {
+			return false
+		}
+		x.proof.WPrime = wp
 	default:
 		return false
 	}
@@ -405,7 +545,7 @@ func (c c17C_bw6_761) shplonk(a kvs, derive bool) string {
 	}
 	pts := c.frLL(bigLL(a["pts"]))
 	build := func(polys [][]fr.Element) (*c17Sh_bw6_761, bool) {
-		x := &c17Sh_bw6_761{vk: srs.Vk}
+		x := &c17Sh_bw6_761{vk: srs.Vk, polys: polys, derive: derive}
 		x.digests = make([]kzg.Digest, len(polys))
 		for i := range polys {
 			if x.digests[i], err = kzg.Commit(polys[i], srs.Pk); err != nil {
@@ -435,23 +575,25 @@ func (c c17C_bw6_761) shplonk(a kvs, derive bool) string {
 	var gv, zv fr.Element
 	out := ""
 	if derive {
-		gp, zp := c.shChallenges(x.points, x.digests, x.proof.W)
+		gp, zp := c.shChallenges(x.points, x.proof.ClaimedValues, x.digests, x.proof.W)
+		x.gp = gp
 		out = "gp=" + c.frHex(gp) + " zp=" + c.frHex(zp)
 		if other != nil {
-			g2, z2 := c.shChallenges(other.points, other.digests, other.proof.W)
+			g2, z2 := c.shChallenges(other.points, other.proof.ClaimedValues, other.digests, other.proof.W)
 			out += " g2=" + c.frHex(g2) + " z2=" + c.frHex(z2)
 		} else {
 			out += " g2=0 z2=0"
 		}
-		gv, zv = gp, zp // "forge" leaves the transcript inputs unchanged
+		gv, zv = gp, zp // placeholders: in gen mode "forge" / "overlap" derive the verifier's challenges themselves
 	} else {
 		gv, zv = c.fr(a.big("gv")), c.fr(a.big("zv"))
+		x.gp = c.fr(a.big("gp"))
 	}
 	if !c.shMutate(a, x, other, tau, gv, zv) {
 		return "bad-op"
 	}
 	if derive {
-		gv, zv = c.shChallenges(x.points, x.digests, x.proof.W)
+		gv, zv = c.shChallenges(x.points, x.proof.ClaimedValues, x.digests, x.proof.W)
 		return out + " gv=" + c.frHex(gv) + " zv=" + c.frHex(zv)
 	}
 	return c17Verdict(shplonk.BatchVerify(x.proof, x.digests, x.points, sha256.New(), x.vk))
@@ -486,7 +628,7 @@ func (c c17C_bw6_761) ffChallenges(x *c17Ff_bw6_761) (fr.Element, fr.Element) {
 	for i := range x.points {
 		ext[i] = c.ffExtend(x.points[i], len(x.proof.ClaimedValues[i]))
 	}
-	return c.shChallenges(ext, x.digests, x.proof.SOpeningProof.W)
+	return c.shChallenges(ext, x.proof.SOpeningProof.ClaimedValues, x.digests, x.proof.SOpeningProof.W)
 }
 
 func (c c17C_bw6_761) fflonk(a kvs, derive bool) string {
